@@ -3,6 +3,7 @@ package props
 import (
 	"fmt"
 	"regexp"
+	"sort"
 	"strconv"
 	"strings"
 
@@ -230,7 +231,12 @@ func execC11(ctx *Ctx, in *Input) *Result {
 				}
 				delete(consts, t.Name)
 			}
+			var cnames []string
 			for n := range consts {
+				cnames = append(cnames, n)
+			}
+			sort.Strings(cnames)
+			for _, n := range cnames {
 				isNT := false
 				for _, nt := range s.NTs {
 					if nt.Name == n {
@@ -259,7 +265,13 @@ func execC11(ctx *Ctx, in *Input) *Result {
 				}
 				cases[code] = id
 			}
-			for name, code := range codeOf {
+			var tnames []string
+			for name := range codeOf {
+				tnames = append(tnames, name)
+			}
+			sort.Strings(tnames)
+			for _, name := range tnames {
+				code := codeOf[name]
 				id, ok := cases[code]
 				if !ok {
 					return fail("translate-missing-case", "translate has no case for %s (code %d)", name, code)
@@ -269,8 +281,13 @@ func execC11(ctx *Ctx, in *Input) *Result {
 				}
 				delete(cases, code)
 			}
-			for code, id := range cases {
-				return fail("translate-extra-case", "translate maps code %d, which is no token, to symbol %d", code, id)
+			if len(cases) > 0 {
+				var extra []int
+				for code := range cases {
+					extra = append(extra, code)
+				}
+				sort.Ints(extra)
+				return fail("translate-extra-case", "translate maps code %d, which is no token, to symbol %d", extra[0], cases[extra[0]])
 			}
 			if !strings.Contains(m[1], "conv") {
 				return fail("translate-shape", "translate body not understood")
